@@ -4,8 +4,8 @@ FIXED = {"range": 1, "caller": 2, "loop": 3}
 ATTRS = {"index": 1, "index0": 2, "revindex": 3, "revindex0": 4, "length": 5, "first": 6, "last": 7}
 FILTERS = {"length": 1, "upper": 2, "lower": 3, "trim": 4, "capitalize": 5, "string": 6, "abs": 7, "default": 8,
            "first": 9, "last": 10, "safe": 11, "escape": 12,
-           "replace": 13, "join": 14, "format": 15, "list": 16}
-TESTS = {"defined": 1, "undefined": 2, "odd": 3, "even": 4, "none": 5}
+           "replace": 13, "join": 14, "format": 15, "list": 16, "items": 17}
+TESTS = {"defined": 1, "undefined": 2, "odd": 3, "even": 4, "none": 5, "mapping": 6}
 BINOPS = {"+": 0, "-": 1, "*": 2, "//": 3, "%": 4, "~": 5}
 CMPOPS = {"==": 0, "!=": 1, "<": 2, "<=": 3, ">": 4, ">=": 5, "in": 6, "notin": 7}
 
@@ -21,6 +21,31 @@ class Names:
             self.ids[n] = i
             self.rev[i] = n
         return self.ids[n]
+
+
+def attr_id(name):
+    """Lang/Syntax.v::attr_str: the loop attributes have fixed numbers, any other (ASCII) attribute name is
+    1000 + sum c_i * 128^i"""
+    if name in ATTRS:
+        return ATTRS[name]
+    return 1000 + sum(ord(c) << (7 * i) for i, c in enumerate(name))
+
+
+def attr_name(i):
+    for k, v in ATTRS.items():
+        if v == i:
+            return k
+    i -= 1000
+    out = ""
+    while i > 0:
+        out += chr(i % 128)
+        i //= 128
+    return out
+
+
+def target(t, N):
+    """assignment target: a name, or a pair of names (unpacking)"""
+    return [0, N.id(t)] if isinstance(t, str) else [1, N.id(t[0]), N.id(t[1])]
 
 
 def s_enc(s):
@@ -43,11 +68,12 @@ def expr(e, N):
     if t == "or": return [11] + expr(e[1], N) + expr(e[2], N)
     if t == "ifexpr": return [12] + expr(e[1], N) + expr(e[2], N) + ([0] if e[3] is None else [1] + expr(e[3], N))
     if t == "item": return [13] + expr(e[1], N) + expr(e[2], N)
-    if t == "attr": return [14] + expr(e[1], N) + [ATTRS.get(e[2], 99)]
+    if t == "attr": return [14] + expr(e[1], N) + [attr_id(e[2])]
     if t == "filter": return [15, FILTERS[e[1]]] + expr(e[2], N) + [len(e[3])] + sum((expr(a, N) for a in e[3]), [])
     if t == "test": return [16, TESTS[e[1]]] + expr(e[2], N) + [len(e[3])] + sum((expr(a, N) for a in e[3]), []) + [1 if e[4] else 0]
     if t == "call":
         return [17, N.id(e[1]), len(e[2])] + sum((expr(a, N) for a in e[2]), []) + [len(e[3])] + sum(([N.id(k)] + expr(v, N) for k, v in e[3]), [])
+    if t == "map": return [18, len(e[1])] + sum((expr(k, N) + expr(v, N) for k, v in e[1]), [])
     raise ValueError(t)
 
 
@@ -65,12 +91,12 @@ def stmt(s, N):
             out += expr(c, N) + body(b, N)
         return out + ([0] if s[2] is None else [1] + body(s[2], N))
     if t == "for":
-        out = [3] + ([0, N.id(s[1])] if isinstance(s[1], str) else [1, N.id(s[1][0]), N.id(s[1][1])])
+        out = [3] + target(s[1], N)
         out += expr(s[2], N) + ([0] if s[3] is None else [1] + expr(s[3], N)) + body(s[4], N)
         return out + ([0] if s[5] is None else [1] + body(s[5], N)) + [1 if s[6] else 0]
-    if t == "set": return [4, N.id(s[1])] + expr(s[2], N)
+    if t == "set": return [4] + target(s[1], N) + expr(s[2], N)
     if t == "setblock": return [5, N.id(s[1])] + body(s[2], N) + ([0] if not s[3] else [1, FILTERS[s[3]]])
-    if t == "with": return [6, len(s[1])] + sum(([N.id(n)] + expr(e, N) for n, e in s[1]), []) + body(s[2], N)
+    if t == "with": return [6, len(s[1])] + sum((target(n, N) + expr(e, N) for n, e in s[1]), []) + body(s[2], N)
     if t == "macro":
         return [7, N.id(s[1]), len(s[2])] + [N.id(p) for p in s[2]] + [len(s[3])] + sum(([N.id(p)] + expr(d, N) for p, d in s[3]), []) + body(s[4], N)
     if t == "callblock": return [8, N.id(s[1]), len(s[2])] + sum((expr(a, N) for a in s[2]), []) + body(s[3], N)
@@ -87,6 +113,7 @@ def value(v):
     if isinstance(v, int): return [3, v]
     if isinstance(v, str): return [4] + s_enc(v)
     if isinstance(v, list): return [5, len(v)] + sum((value(x) for x in v), [])
+    if isinstance(v, dict): return [6, len(v)] + sum((value(k) + value(x) for k, x in v.items()), [])
     raise ValueError(v)
 
 
